@@ -8,8 +8,15 @@ the lookup model (lean/MakoModel/Lookup/Model.lean) is parameterised by.
   `collection_size` that selects the plain dict, and that `util.LRUCache(collection_size)` is called with the
   capacity only (so the default threshold is the one in force),
 * the comparison operator of `_check` (`module._modified_time >= mtime`), as an enum,
-* whether `_load` hands a second-chance hit to `_check`, whether `_compile_from_file` compares the module's
-  `_template_filename` with the source file name (and that its staleness test is still exists/mtime).
+* whether `_load` hands a second-chance hit to `_check` (`secondChanceChecked`; read by the model of C14 and by
+  the concurrent model of C16, which lists this group in its REGEN too), whether `_compile_from_file` compares the module's
+  `_template_filename` with the source file name (and that its staleness test is still exists/mtime), and whether
+  that staleness test precedes the first `load_module` (`staleDecidedBeforeImport`; consumed by C14 only).
+
+Every constant has an obligation in lean/MakoModel/Lookup/LemmasColl.lean (`keepCached_eq`, `threshold_den_pos`,
+`sort_is_descending`, `slice_is_from_capacity`, `module_checks_source_name`, `stale_decided_before_import`,
+`second_chance_checked`, `default_filesystem_checks`, `default_collection_unbounded`) or is used by a property
+theorem directly (`thresholdNum/Den` in `lru_bound`).
 """
 from __future__ import annotations
 
